@@ -86,6 +86,27 @@ class IdentityObj(NonLit):
     return IdentityObj(self.name)
 
 
+class EqArray:
+  """A caller-supplied value whose `==` is element-wise (like a NumPy array): the result has no truth value."""
+
+  def __init__(self, tag):
+    self.tag = tag
+
+  def __eq__(self, other):
+    return BoolRaises()
+
+  def __ne__(self, other):
+    return BoolRaises()
+
+  __hash__ = None
+
+  def __deepcopy__(self, memo):
+    return self
+
+  def __repr__(self):
+    return '<EqArray %r>' % (self.tag,)
+
+
 class HookError(Exception):
   """Raised by a probe finalize hook that is specified to fail."""
 
@@ -494,7 +515,8 @@ class World:
       return self.gin.REQUIRED
     if t in ('cp', 'ck'):
       # every other caller value is an object that compares equal to anything
-      return EqAny((t, v[1])) if (self.step + self.pool_seed + len(str(v[1]))) % 2 else (t, v[1])
+      k = (self.step + self.pool_seed + len(str(v[1]))) % 4
+      return EqAny((t, v[1])) if k == 1 else (EqArray((t, v[1])) if k == 3 else (t, v[1]))
     if t == 'ref':
       text = self._ref_text(v)
       return self.config.parse_value(text)
@@ -513,7 +535,7 @@ class World:
     config = self.config
     if x is self.gin.REQUIRED:
       return ['req']
-    if isinstance(x, EqAny):
+    if isinstance(x, (EqAny, EqArray)):
       return [x.tag[0], x.tag[1]]
     if isinstance(x, Result):
       return ['res', x.sel.split('.'), x.scope, self.map_to_spec(x.delivered)]
